@@ -109,6 +109,15 @@ class MiniEval:
 
     def ev_Attribute(self, n):
         obj = self.ev(n.value)
+        if isinstance(obj, Model) and getattr(type(obj), "_allow_private", False):
+            try:
+                return getattr(obj, n.attr)
+            except AttributeError:
+                raise ModelRaise("AttributeError", f"'{type(obj).__name__}' object has no attribute '{n.attr}'")
+        if isinstance(obj, Model) and n.attr in ("__contains__", "__len__", "__iter__", "__getitem__") and hasattr(obj, n.attr):
+            return getattr(obj, n.attr)
+        if isinstance(obj, Model) and n.attr in obj.__dict__.get("_user_attrs", ()):
+            return obj.__dict__[n.attr]
         if isinstance(obj, Model):
             if n.attr.startswith("_") or not hasattr(obj, n.attr):
                 # a method the repository's class defines but the reference model does not (new private helper, ...)
@@ -145,6 +154,21 @@ class MiniEval:
             return isinstance(obj, tuple(types))
         if isinstance(n.func, ast.Attribute) and n.func.attr == "__init__" and isinstance(n.func.value, ast.Call) and isinstance(n.func.value.func, ast.Name) and n.func.value.func.id == "super":
             return None  # super().__init__(...) of a library base class: no model state
+        if isinstance(n.func, ast.Name) and n.func.id in ("getattr", "hasattr") and n.func.id not in self.env and 2 <= len(n.args) <= 3:
+            obj = self.ev(n.args[0])
+            name = self.ev(n.args[1])
+            ok = isinstance(name, str) and (isinstance(obj, Model) or isinstance(obj, (str, list, dict, set, tuple)))
+            if not ok:
+                raise Unsupported(f"{n.func.id} on {type(obj).__name__}")
+            private_ok = getattr(type(obj), "_allow_private", False) or (isinstance(obj, Model) and name in obj.__dict__.get("_user_attrs", ()))
+            present = (private_ok or not name.startswith("_")) and hasattr(obj, name)
+            if n.func.id == "hasattr":
+                return present
+            if present:
+                return getattr(obj, name)
+            if len(n.args) == 3:
+                return self.ev(n.args[2])
+            raise ModelRaise("AttributeError", name)
         if isinstance(n.func, ast.Name) and n.func.id == "next" and n.func.id not in self.env and 1 <= len(n.args) <= 2:
             it = self.ev(n.args[0])
             try:
@@ -389,8 +413,12 @@ class MiniEval:
                 self._bind(t, v)
         elif isinstance(target, ast.Attribute):
             obj = self.ev(target.value)
-            if isinstance(obj, Model) and not target.attr.startswith("_"):
+            if isinstance(obj, Model) and (not target.attr.startswith("_") or getattr(type(obj), "_allow_private", False)):
                 setattr(obj, target.attr, value)
+            elif isinstance(obj, Model) and not hasattr(type(obj), target.attr) and (target.attr not in obj.__dict__ or target.attr in obj.__dict__.get("_user_attrs", ())):
+                # a private attribute the evaluated code itself introduces (a cache, a flag): kept apart from model internals
+                obj.__dict__.setdefault("_user_attrs", set()).add(target.attr)
+                obj.__dict__[target.attr] = value
             else:
                 raise Unsupported(f"attribute store on {type(obj).__name__}")
         elif isinstance(target, ast.Subscript):
